@@ -240,6 +240,7 @@ partial def pyJ : Py → Json
   | .inv e => Json.mkObj [("k", "inv"), ("e", pyJ e)]
   | .bin op l r => Json.mkObj [("k", "bin"), ("op", op.trimAscii.toString), ("l", pyJ l), ("r", pyJ r)]
   | .paren e => Json.mkObj [("k", "paren"), ("e", pyJ e)]
+  | .meth r n a => Json.mkObj [("k", "meth"), ("recv", pyJ r), ("name", n), ("arg", pyJ a)]
   | .junk t => Json.mkObj [("k", "junk"), ("text", t)]
 partial def pylJ : PyL → List Json
   | .nil => [] | .cons e t => pyJ e :: pylJ t
